@@ -267,6 +267,33 @@ pub fn deep_child() -> i32 {
         let _ = sonic_rs::from_slice::<Value>(half.as_bytes()).is_ok();
         let _ = sonic_rs::from_slice::<LazyValue>(half.as_bytes()).is_ok();
     }
+    // recursion through typed targets: externally tagged enums, newtype structs, options and boxes
+    #[derive(serde::Deserialize)]
+    #[allow(dead_code)]
+    enum Chain {
+        A(Box<Chain>),
+        B { next: Box<Chain> },
+        End,
+    }
+    #[derive(serde::Deserialize)]
+    #[allow(dead_code)]
+    struct Wrap {
+        inner: Option<Box<Wrap>>,
+    }
+    #[derive(serde::Deserialize)]
+    #[allow(dead_code)]
+    struct New(Vec<New>);
+    for (open, close, inner) in [("{\"A\":", "}", "\"End\""), ("{\"B\":{\"next\":", "}}", "\"End\""), ("{\"A\":{\"B\":{\"next\":", "}}}", "\"End\"")] {
+        let doc = format!("{}{}{}", open.repeat(n), inner, close.repeat(n));
+        let _ = sonic_rs::from_str::<Chain>(&doc).is_ok();
+        let _ = sonic_rs::from_slice::<Chain>(doc.as_bytes()).is_ok();
+        let two = format!("\"End\" {doc}");
+        let _ = sonic_rs::Deserializer::from_slice(two.as_bytes()).into_stream::<Chain>().count();
+    }
+    let doc = format!("{}null{}", "{\"inner\":".repeat(n), "}".repeat(n));
+    let _ = sonic_rs::from_str::<Wrap>(&doc).is_ok();
+    let doc = format!("{}{}", "[".repeat(n), "]".repeat(n));
+    let _ = sonic_rs::from_str::<New>(&doc).is_ok();
     println!("deep-ok");
     0
 }
